@@ -1,6 +1,6 @@
 """Freeze harness/ref_neighbours.json: for every call of ref_table.json, neighbouring parameter tuples (other iteration
 counts, scaled parameters) run on the CLEAN pinned tree; a neighbour is kept only when the example accepts it, and the
-claim observed there (tight / upper) is recorded.  usage: PYTHONPATH=<clean tree>:harness python mk_neighbours.py [procs]"""
+claim observed there (tight / upper) is recorded.  usage: PYTHONPATH=<clean tree>:harness python mk_neighbours.py [procs] [far]   (far: harness/ref_far.json, see far_neighbours)"""
 import json, os, sys, random
 sys.path.insert(0, os.path.dirname(os.path.abspath(__file__)))
 from examples_run import run_many
@@ -28,10 +28,45 @@ def neighbours(args, rnd):
     return uniq[:5]
 
 
-def main(procs):
+def far_neighbours(args):
+    """tuples FAR from the suite's: three times as many iterations (up to 16), constants three times as large, the step size at
+    the other end of its range (1 / L), a ten times smaller mu, and combinations that keep L * gamma fixed: a closed form with
+    several regimes (a max / min of branches) is visited in its other regimes, a formula that is only right for L = 1 is exposed"""
+    num = lambda k: isinstance(args.get(k), (int, float)) and not isinstance(args.get(k), bool)
+    out = []
+    n2 = None
+    if isinstance(args.get("n"), int) and not isinstance(args.get("n"), bool):
+        n2 = min(max(3 * args["n"], 12), 16)
+        if n2 != args["n"]: out.append(dict(args, n=n2))
+    if num("L"):
+        a = dict(args, L=args["L"] * 3)
+        if num("gamma"): a["gamma"] = args["gamma"] / 3           # same L * gamma
+        if num("mu"): a["mu"] = args["mu"] * 3                    # same condition number
+        out.append(a)
+        if n2: out.append(dict(a, n=n2))
+        if num("gamma") and args["L"] > 0 and abs(args["gamma"] * args["L"] - 1) > 1e-9:
+            out.append(dict(args, L=args["L"] * 3, gamma=1 / (args["L"] * 3), **({"mu": args["mu"] * 3} if num("mu") else {})))     # step 1 / L, L != 1
+            if n2: out.append(dict(args, L=args["L"] * 3, gamma=1 / (args["L"] * 3), n=n2, **({"mu": args["mu"] * 3} if num("mu") else {})))
+    if num("mu") and args["mu"] > 0: out.append(dict(args, mu=args["mu"] / 10))
+    for key in ("gamma", "alpha", "theta", "beta"):
+        if num(key) and args[key] not in (0, 1) and not num("L"): out.append(dict(args, **{key: args[key] * 3}))
+    seen, uniq = set(), []
+    for a in out:
+        k = json.dumps(a, sort_keys=True)
+        if k not in seen: seen.add(k); uniq.append(a)
+    return uniq[:7]
+
+
+def main(procs, far=False):
+    global neighbours
+    if far: neighbours = lambda args, rnd: far_neighbours(args)
     tab = json.load(open(os.path.join(HERE, "ref_table.json")))
+    if far:
+        known = json.load(open(os.path.join(HERE, "ref_neighbours.json")))
+        tab_seen = {json.dumps([t["module"], t["args"]], sort_keys=True) for t in known}
+    else: tab_seen = set()
     rnd = random.Random(1)
-    seen = {json.dumps([t["module"], t["args"]], sort_keys=True) for t in tab}
+    seen = {json.dumps([t["module"], t["args"]], sort_keys=True) for t in tab} | tab_seen
     jobs, metas = [], []
     for t in tab:
         if t["claim"] not in ("tight", "tight-undocumented", "upper"): continue
@@ -50,9 +85,9 @@ def main(procs):
         else: continue            # the example does not claim anything there (or the claim of the suite tuple does not extend)
         if t["claim"] == "upper" and claim == "tight": claim = "upper"       # never claim more than the suite tuple does
         out.append(dict(module=mod, func=fn, args=a, claim=claim, baseline_pepit=p, baseline_theory=th, seconds=round(r["s"], 1)))
-    json.dump(out, open(os.path.join(HERE, "ref_neighbours.json"), "w"), indent=0)
+    json.dump(out, open(os.path.join(HERE, "ref_far.json" if far else "ref_neighbours.json"), "w"), indent=0)
     print("kept", len(out), "of", len(jobs))
 
 
 if __name__ == "__main__":
-    main(int(sys.argv[1]) if len(sys.argv) > 1 else 12)
+    main(int(sys.argv[1]) if len(sys.argv) > 1 else 12, far=(len(sys.argv) > 2 and sys.argv[2] == "far"))
